@@ -89,7 +89,7 @@ macro_rules! history {
 history!(inner_history_bytes, 4, false, 2);
 //@harness name=inner_history_str tier=quick timeout=900 unwind=6 desc="same for Inner created from a str (utf8 flag set at creation)" bounds="content of exactly 2 bytes valid UTF-8, 4 operations, <= 3 handles"
 history!(inner_history_str, 4, true, 2);
-//@harness name=inner_history_bytes_6 tier=thorough optional=1 timeout=7200 unwind=8 desc="same, 6 operations" bounds="content <= 2 bytes, 6 operations, <= 3 handles"
+//@harness name=inner_history_bytes_6 tier=thorough optional=1 timeout=3600 unwind=8 desc="same, 6 operations" bounds="content <= 2 bytes, 6 operations, <= 3 handles"
 history!(inner_history_bytes_6, 6, false, 2);
 //@harness name=inner_history_bytes_len1 tier=quick timeout=900 unwind=6 desc="same, content of exactly 1 byte" bounds="content 1 byte, 4 operations, <= 3 handles"
 history!(inner_history_bytes_len1, 4, false, 1);
